@@ -162,6 +162,7 @@ func grpcMotifs() []motif {
 		m("late-dial", hop{0, 'a', 0, 0, "unmatched"}, hop{6500, 'd', 0, 0, "unmatched"}),
 		m("late-accept", hop{0, 'd', 0, 0, "unmatched"}, hop{6500, 'a', 0, 0, "unmatched"}),
 		m("two-ids-crossed", hop{0, 'a', 0, 0, "matched"}, hop{0, 'a', 1, 0, "matched"}, hop{200, 'd', 1, 0, "matched"}, hop{300, 'd', 0, 0, "matched"}),
+		m("dup-accept", hop{0, 'a', 0, 0, "unmatched"}, hop{60, 'a', 0, 0, "unmatched"}),
 		m("three-ids", hop{0, 'a', 0, 0, "matched"}, hop{10, 'a', 1, 0, "matched"}, hop{20, 'a', 2, 0, "matched"}, hop{400, 'd', 2, 0, "matched"}, hop{400, 'd', 0, 0, "matched"}, hop{400, 'd', 1, 0, "matched"}),
 	}
 }
@@ -231,6 +232,11 @@ func init() {
 		for i := 0; i < n; i++ {
 			q := r.fork(uint64(i))
 			hs = append(hs, compose(fmt.Sprintf("g%d", i), q, ms, 1+q.intn(5), q.intn(3) == 0))
+		}
+		// liveness of the conn-info loop: duplicate accepts nobody dials, then a fresh pair in each direction
+		for i := 0; i < 4; i++ {
+			q := r.fork(uint64(1000 + i))
+			hs = append(hs, compose(fmt.Sprintf("gd%d", i), q, []motif{ms[10], ms[6]}, 2+q.intn(2), true))
 		}
 		results := make([][]opResult, len(hs))
 		errs := make([]error, len(hs))
